@@ -96,6 +96,41 @@ Section Std.
     end.
 End Std.
 
+(* ---- spellings of one value ----
+   The serial format has a shorthand for tuples, {"v":"Tuple","vs":[..]}, which hugr-core reads as an alias of the
+   general {"v":"Sum","tag":0,"typ":<the one-row sum of the fields' types>,"vs":[..]} (and writes as the latter).
+   `general s t` is the general spelling of a serial value s read at type t: every STuple met at a one-row sum type
+   becomes the tag-0 sum value that carries this type; field / element types are read off the enclosing sum type /
+   the payload's element type.  (proofs/ValuesP.v: general_has_type — the judgment does not see the spelling.) *)
+Fixpoint gzip {A B} (f : A -> B -> A) (vs : list A) (row : list B) : list A :=
+  match vs, row with
+  | v :: vr, t' :: tr => f v t' :: gzip f vr tr
+  | _, _ => vs
+  end.
+Fixpoint general (s : sval) (t : ty) {struct s} : sval :=
+  let fix zip (vs : list sval) (row : list ty) : list sval :=
+    match vs, row with
+    | v :: vr, t' :: tr => general v t' :: zip vr tr
+    | _, _ => vs
+    end in
+  let fix each (vs : list sval) (elem : ty) : list sval :=
+    match vs with [] => [] | v :: r => general v elem :: each r elem end in
+  match s with
+  | SSum tag typ vs =>
+      SSum tag typ match sum_rows typ with
+                   | Some rows => match nth_error rows tag with Some row => zip vs row | None => vs end
+                   | None => vs
+                   end
+  | STuple vs => match sum_rows t with Some [row] => SSum 0 t (zip vs row) | _ => STuple vs end
+  | SFunc _ _ _ => s
+  | SExt nm typ p exts =>
+      SExt nm typ match p with
+                  | SPSeq vs elem => SPSeq (each vs elem) elem
+                  | SPStatic vs elem n => SPStatic (each vs elem) elem n
+                  | _ => p
+                  end exts
+  end.
+
 (* ---- guards of the theorems (what a caller who picks types by hand must ensure); they mention type_of ---- *)
 Fixpoint forall2b {A B} (f : A -> B -> bool) (l : list A) (m : list B) : bool :=
   match l, m with [], [] => true | x :: r, y :: s => f x y && forall2b f r s | _, _ => false end.
